@@ -148,8 +148,9 @@ CHECKS = {
              "alphabet (limits 0/1/2/None, new=True/False, termination sets, exit requests before and inside callbacks) and "
              "seeded random ones, on all four solver kinds.",
         note="trusted: TLC and the recorder; exit requests are injected by setting the flag the signal handler sets (the "
-             "interactive prompt is not driven); default limits are taken from the documented formula; wrappers' warnflag is "
-             "checked by the wrapper section of the check",
+             "interactive prompt is not driven); default limits are taken from the documented formula; the wrappers fmin/"
+             "fmin_powell/diffev/diffev2 are run with every limit pattern (None/0/1/small/huge, with a stop rule that cannot hold and an "
+             "ordinary one) and their (iter, funcalls, warnflag) judged by Lifecycle.WarnFlag/ResG/ResE (Trace_Lifecycle.TraceWrap)",
         design_ref="DESIGN.md section 4/C05"),
     "C15": dict(
         level="model_checking",
@@ -290,15 +291,15 @@ CHECKS.update({
                   "checks its lemmas (ScaleLemma, independence of lines) and emits every (system, input point, allowed "
                   "observation); each is replayed on the real generate_constraint(generate_solvers(text)) and boundsconstrain",
         text="Relations x_i op rhs for the six comparators incl. !=, right-hand sides constant / other variable / affine / "
-             "nonlinear catalogue, 1-3 independent lines, boxes lo<=hi incl. unbounded and degenerate sides (symbolic and "
+             "nonlinear catalogue, 1-3 independent lines; 2 and 3 lines on the SAME left-hand variable (all comparator pairs incl. (<=,!=), (>=,!=), (=,!=), intervals incl. degenerate and empty, same and different right-hand sides, every line order; sym/LinRelGrp.tla gives the joint result per variable), alone and beside an independent line; boxes lo<=hi incl. unbounded and degenerate sides (symbolic and "
              "impose_bounds paths), every integer input point of the grid incl. exact boundary points, huge magnitudes (2^40, "
              "2^60) for degree-one systems, variable-name schemes incl. >=10 variables (x1 vs x10), named variables that are "
-             "substrings of each other or of function names, inputs as list of float / list of int / ndarray: 133k cases quick. "
+             "substrings of each other or of function names, inputs as list of float / list of int / ndarray: 162k cases quick. "
              "Compared: set of changed coordinates, relation holds weakly/strictly, feasible input returned unchanged, box "
              "clipping exact and identity inside.",
         note="trusted: TLC, rendering of relation records as text (harness/linrel_common.py, guarded by re-evaluating the "
              "rendered text), exact IEEE arithmetic on integer inputs; feasible inputs closer to the boundary than the "
-             "documented tolerance 1e-15*(1+|rhs|) are outside the class",
+             "documented tolerance 1e-15*(1+|rhs|) are outside the class; same-variable runs use even-integer inputs/constants so real-valued sign patterns are representable; systems contradictory at the input point are neither executed nor judged; replayed path is generate_solvers/generate_constraint on the isolated text",
         design_ref="DESIGN.md section 4/C13"),
     "C14": dict(
         level="exploration",
@@ -368,6 +369,37 @@ CHECKS.update({
              "pathos/multiprocess maps are not available in the sandbox (a fork-per-item map stands in for DE2); "
              "SparsitySolver not run (fillpts runs a random DE)",
         design_ref="DESIGN.md section 4/C07"),
+})
+
+
+CHECKS.update({
+    "C06": dict(
+        level="model_checking",
+        technique="TLA+ spec solver/Checkpoint.tla (several solver instances, a snapshot store, evaluation-counter cells on a heap, "
+                  "the random-generator state as an explicit variable; actions Step, Save, PeriodicDump, Load, DeepCopy, "
+                  "RestoreRng, Scramble, SetCfg) model-checked by TLC for ResumeEquivalence, Independence (action property) and "
+                  "CopyCounts, with six named as-is designs refuted; solver/Gen_Checkpoint.tla drives the same actions as "
+                  "crash/restore experiments: TLC enumerates every script and emits after every command which equalities, "
+                  "counters and stop verdicts the specification asserts; the harness executes each script on real "
+                  "DE/DE2/Nelder-Mead/Powell solvers and compares bit for bit what TLC asserted (spec->code)",
+        text="Scripts = (solver kind, setting, interruption generation k, path, generator handling, mode): paths SaveSolver+"
+             "LoadSolver, periodic SetSaveFrequency dump+LoadSolver, dill, deepcopy; generator restored or scrambled; modes none / "
+             "original advances first / interleaved / restored instance gets its own limit / two restores from one snapshot / "
+             "restore of a restored solver.  Quick: 4 kinds x 10 settings (bounds, constraints, penalty, monitors, evaluation "
+             "limits, save frequencies 1-3) x EVERY boundary k of runs of 8 generations x 4 paths = 1.8k scripts, 9.4k "
+             "post-checkpoint steps; thorough: 25k scripts over 58 groups, every k of n<=25, 359k compared steps.  After every "
+             "command the full projection of every live instance (population, energies, best, generations, evaluations, energy/"
+             "solution history, step- and evaluation-monitor contents, limits, Terminated message, DE genealogy, Nelder-Mead "
+             "simplex, Powell's direction set and internals) is compared NaN-aware and bit-exact with the uninterrupted run at "
+             "the generation the specification names; every other instance must be unchanged; evaluations move by exactly the "
+             "real objective calls of the acting instance.  Design: 288k (quick) / 6M (thorough) TLC states, 7 vacuity "
+             "witnesses.",
+        note="trusted: TLC, the harness projection and generator bookkeeping (random + numpy.random state saved at snapshot time "
+             "and installed per instance), harness/c06_costs as the real-call counter; premises: user terminations never fire "
+             "inside a run (stops come from limits, which the spec predicts), finite costs, default in-process map; not "
+             "judged (the spec makes no claim): DE trajectory when the generator is not restored, the first step of a deep copy "
+             "under strict ranges (re-decoration re-clips), copy.copy (shallow by definition), LoadSolver(**kwds) overrides",
+        design_ref="DESIGN.md section 4/C06"),
 })
 
 PENDING = {}
